@@ -154,13 +154,15 @@ impl IndicatorInstance for MoneyFlowIndexInstance {
 		self.pmf += pos - left_pos;
 		self.nmf += neg - left_neg;
 
-		let mfr = if self.nmf == 0.0 {
-			1.
+		let value = if self.nmf == 0.0 {
+			if self.pmf == 0.0 {
+				0.5
+			} else {
+				1.
+			}
 		} else {
-			self.pmf / self.nmf
+			1. - (1. + self.pmf / self.nmf).recip()
 		};
-
-		let value = 1. - (1. + mfr).recip();
 
 		let upper = 1. - self.cfg.zone;
 		let lower = self.cfg.zone;
